@@ -1,5 +1,6 @@
 import Pearl.Proofs.FsLemmas
 import Pearl.Proofs.AcctHarm
+import Pearl.Proofs.FsAcct
 /-
 C07: blob files are append-only logs, on the file / trace layer (L6, `Pearl/Model/Fs.lean`).
 
@@ -10,6 +11,12 @@ Second half of the file: the directory level (`Pearl/Model/Acct.lean`: work dire
 with quarantine / `ignore_corrupted`) — `dir_blob_files_only_grow`, `dir_blob_files_never_vanish`, `dir_ids_never_reused`,
 `dir_quarantine_never_replaces`, `dir_ignored_left_in_place`, `dir_index_file_fate`, and the counter-models
 `dir_c074_reuses_quarantined_id`, `dir_late_reservation_on_empty_dir`, `dir_c073_reuses_id_of_leftover_file`.
+
+Last part: the two levels are linked (`Pearl/Proofs/FsAcct.lean`) — `trace_is_complete` (the unchecked replay `dirOfTrace` of
+the trace of any run gives the `size` counters), `fs_acct_same_files` (on the directory-level history `FsAcct.toAOps` of
+any list of driver-level operations, `Acct.run` lists the blob files of `Fs.run` with the same lengths and the same index
+files with the same `blob_size` field), `trace_and_directory_agree` (the no-harm theorems of both levels are about the
+same numbers).
 -/
 namespace Pearl
 open Fs
@@ -553,14 +560,195 @@ example := dir_ignored_left_in_place cfg true (ops1 ++ more1.take 1) false [1]
 
 end
 
+/-! ## the two levels are two views of one run (`Pearl/Proofs/FsAcct.lean`)
+
+`FsAcct.toAOps dup limit klen unc rs ops` = the directory-level history (`List Acct.AOp`) of the driver-level operations
+`ops`: operation by operation (`FsAcct.tr`), in the state the operation is issued in — a rotation runs its dump pass
+unless a deferred dump is registered, `force` goes ahead iff its predicate holds, `free` / `settle` are a dump pass,
+`restart` and `open` of a closed storage are `restart lazy false []` (no damage, no `ignore_corrupted`), `fsync`, `close`
+and queries are no directory-level operation (what `close` dumps is part of the `restart` that follows).  This is the
+translation `AcctScript.plan` applies to script lines. -/
+
+/-- (1) The trace is complete.  `dirOfTrace` replays a trace WITHOUT any check (a create makes an empty file, a write
+    at `off` of `len` extends the file to `max size (off + len)`); on the trace of any run it gives every blob file
+    exactly the length the `size` counter of `Fs` says (`FileS.size`), files that do not exist included — every byte
+    the counters know about was emitted as a write — and it is the final state of the append-only acceptor. -/
+theorem trace_is_complete (dup : Bool) (limit klen : Nat) (unc rs : Bool) (ops : List FsOp) :
+    (∀ id, dirOfTrace (run dup limit klen unc rs ops).2 id =
+        ((run dup limit klen unc rs ops).1.disk.files id).map (·.size)) ∧
+      replay (fun _ => none) (run dup limit klen unc rs ops).2 =
+        some (dirOfTrace (run dup limit klen unc rs ops).2) :=
+  ⟨fun id => dirOfTrace_run dup limit klen unc rs ops id, replay_run_eq_dirOfTrace dup limit klen unc rs ops⟩
+
+/-- (2) The two models agree on every damage-free history.  For every list of driver-level operations, with
+    `A` its directory-level history: no step of `A` damages a file; both models hold the same L2 store; the work
+    directory of `Acct.run` lists exactly the blob files `Fs.run` has counters for, each with the length of the `size`
+    counter — which is the length `dirOfTrace` reads off the trace; nothing is quarantined or skipped; and the index
+    files are the same, with the same `blob_size` field (while the storage is closed, `Acct` has not yet been told:
+    `Acct.restart` closes the session itself, so it is `Acct.closeSession` of the state that is compared). -/
+theorem fs_acct_same_files (c : Acct.Cfg) (dup : Bool) (limit klen : Nat) (unc rs : Bool) (hk : c.klen = klen)
+    (ops : List FsOp) :
+    let r := run dup limit klen unc rs ops
+    let A := FsAcct.toAOps dup limit klen unc rs ops
+    let s := Acct.run c dup A
+    (∀ o ∈ A, Acct.NoDamage o) ∧ s.store = r.1.store ∧
+      (∀ id, Acct.get s.dir.blobs id = (r.1.disk.files id).map (·.size)) ∧
+      (∀ id, Acct.get s.dir.blobs id = dirOfTrace r.2 id) ∧
+      (∀ id, (Acct.get (if r.1.isOpen then s else Acct.closeSession c s).dir.idx id).map (·.blobSize) =
+        r.1.disk.idx id) ∧
+      s.ignored = [] ∧ s.dir.corrupted = [] := by
+  intro r A s
+  have h := (FsAcct.run_sim c dup limit klen unc rs hk ops).r0
+  have hnd := FsAcct.toAOps_noDamage dup limit klen unc rs ops
+  obtain ⟨_, hi, hc⟩ := Acct.run_clean c dup A hnd
+  have hst : (FsAcct.eff c r.1 s).store = s.store := by
+    unfold FsAcct.eff; split
+    · rfl
+    · rw [Acct.closeSession_store]
+  have hbl : (FsAcct.eff c r.1 s).dir.blobs = s.dir.blobs := by
+    unfold FsAcct.eff; split
+    · rfl
+    · rw [Acct.closeSession_blobs]
+  have hb : ∀ id, Acct.get s.dir.blobs id = (r.1.disk.files id).map (·.size) := by
+    intro id; rw [← hbl]; exact h.blobs id
+  refine ⟨hnd, by rw [← hst]; exact h.store, hb, ?_, h.idx, hi, hc⟩
+  intro id
+  rw [hb id, dirOfTrace_run]; rfl
+
+/-- (3) The directory-level and the trace-level no-harm theorems are two views of one run.  Take any run `ops` and any
+    continuation `more`; `A`, `A'` are the directory-level histories, `A'` extends `A` and the later trace extends the
+    earlier one.  Then
+    * at both times the listing of the work directory IS the replay of the trace (`dirOfTrace`), and the trace is
+      accepted by the append-only file system `fsAccept` (`blob_events_append_only`: creation of new names only, writes
+      exactly at the end, no truncation) whose final state is that listing;
+    * "blob files only grow": a blob file listed at the earlier time is listed later, at least as long — this is
+      `dir_blob_files_only_grow` on `A`, `A'` (directory level) and `replay_grows` on the trace (trace level), about
+      the same numbers;
+    * "ids are never reused": the ids created in the trace, in order (`ids_never_reused`), are the creation log of the
+      directory model (`dir_ids_never_reused`): `0, 1, …, next_blob_id - 1`, and `next_blob_id` is the same number in
+      both models. -/
+theorem trace_and_directory_agree (c : Acct.Cfg) (dup : Bool) (limit klen : Nat) (unc rs : Bool) (hk : c.klen = klen)
+    (ops more : List FsOp) :
+    let r := run dup limit klen unc rs ops
+    let r' := run dup limit klen unc rs (ops ++ more)
+    let A := FsAcct.toAOps dup limit klen unc rs ops
+    let A' := FsAcct.toAOps dup limit klen unc rs (ops ++ more)
+    let s := Acct.run c dup A
+    let s' := Acct.run c dup A'
+    (∃ B, A' = A ++ B) ∧ (∃ u, r'.2 = r.2 ++ u) ∧
+      (∀ id, Acct.get s.dir.blobs id = dirOfTrace r.2 id) ∧
+      (∀ id, Acct.get s'.dir.blobs id = dirOfTrace r'.2 id) ∧
+      (∃ m, replay (fun _ => none) r'.2 = some m ∧ ∀ id, m id = Acct.get s'.dir.blobs id) ∧
+      (∀ id l, Acct.get s.dir.blobs id = some l →
+        ∃ l', Acct.get s'.dir.blobs id = some l' ∧ l ≤ l' ∧
+          dirOfTrace r.2 id = some l ∧ dirOfTrace r'.2 id = some l') ∧
+      createdIds r'.2 = (Acct.runG c dup A').created ∧
+      createdIds r'.2 = List.range (Acct.nextBlobId s') ∧
+      (createdIds r'.2).Pairwise (· < ·) ∧
+      Acct.nextBlobId s' = r'.1.store.nextId := by
+  intro r r' A A' s s'
+  have h1 := fs_acct_same_files c dup limit klen unc rs hk ops
+  have h2 := fs_acct_same_files c dup limit klen unc rs hk (ops ++ more)
+  have hA : A' = A ++ FsAcct.trFrom r.1 more := FsAcct.toAOps_append dup limit klen unc rs ops more
+  have hnext : Acct.nextBlobId s' = r'.1.store.nextId := by
+    show s'.store.nextId = _
+    rw [h2.2.1]
+  have hcr : createdIds r'.2 = List.range (Acct.nextBlobId s') := by
+    rw [hnext]; exact FsAcct.createdIds_run dup limit klen unc rs (ops ++ more)
+  refine ⟨⟨_, hA⟩, run_trace_prefix dup limit klen unc rs ops more, h1.2.2.2.1, h2.2.2.2.1, ?_, ?_, ?_, hcr,
+    ids_never_reused dup limit klen unc rs (ops ++ more), hnext⟩
+  · exact ⟨_, replay_run_eq_dirOfTrace dup limit klen unc rs (ops ++ more), fun id => (h2.2.2.2.1 id).symm⟩
+  · intro id l hl
+    have hl1 : dirOfTrace r.2 id = some l := by rw [← h1.2.2.2.1 id]; exact hl
+    -- trace level: the file is still there
+    obtain ⟨l', hl', _⟩ := dirOfTrace_grows dup limit klen unc rs ops more id l hl1
+    have hl2 : Acct.get s'.dir.blobs id = some l' := by rw [h2.2.2.2.1 id]; exact hl'
+    -- directory level: it is at least as long
+    have hgrow := (dir_blob_files_only_grow c dup A (FsAcct.trFrom r.1 more)).1 id l l' hl (by rw [← hA]; exact hl2)
+    exact ⟨l', hl2, hgrow, hl1, hl'⟩
+  · rw [hcr, (Acct.ginv_run c dup A').created, Acct.runG_st]; rfl
+
+/-! ### non-vacuity: a history with a rotation, a delete into a closed blob (which registers a deferred dump), close and
+restore of the active blob, a restart, a second rotation, `close` / ignored write / `open lazy` -/
+
+namespace C07Link
+
+def ops : List FsOp :=
+  [.write 10 5 none ⟨10, 1⟩ false, .write 11 5 none ⟨5000, 2⟩ true, .write 12 6 none ⟨7, 2⟩ false,
+   .delete 10 6 none true, .closeActive, .restoreActive, .write 13 7 none ⟨3, 3⟩ false, .restart false]
+
+def more : List FsOp :=
+  [.write 12 7 (some (some [1, 2])) ⟨0, 0⟩ true, .delete 11 8 none false, .close, .write 1 1 none ⟨1, 1⟩ false,
+   .open true, .settle, .createActive]
+
+end C07Link
+
+section
+open C07Link
+
+-- the directory-level history: 8 operations for `ops` (the write after the delete into closed blob 0 carries
+-- `dmp = false`: a deferred dump is registered), 5 more for `more` (`close` and the write into the closed storage
+-- are no directory-level operation, `open lazy` is the restart)
+example : (FsAcct.toAOps true 100 4 true true ops).length = 8 ∧
+    (FsAcct.toAOps true 100 4 true true (ops ++ more)).length = 13 := by decide +kernel
+-- the listing of `Acct.run`, the replay of the `Fs` trace and the `Fs` counters: blob 0 (closed since the rotation)
+-- grows 5237 → 5306 by a deletion marker, blob 1 grows 168 → 256 across the restart
+example :
+    (Acct.run C07Dir.cfg true (FsAcct.toAOps true 100 4 true true ops)).dir.blobs = [(0, 5237), (1, 168)] ∧
+      (Acct.run C07Dir.cfg true (FsAcct.toAOps true 100 4 true true (ops ++ more))).dir.blobs =
+        [(0, 5306), (1, 256), (2, 89), (3, 20)] := by decide +kernel
+example :
+    ((List.range 5).map fun i => dirOfTrace (run true 100 4 true true ops).2 i) =
+        [some 5237, some 168, none, none, none] ∧
+      ((List.range 5).map fun i => dirOfTrace (run true 100 4 true true (ops ++ more)).2 i) =
+        [some 5306, some 256, some 89, some 20, none] ∧
+      ((List.range 5).map fun i => ((run true 100 4 true true (ops ++ more)).1.disk.files i).map (·.size)) =
+        [some 5306, some 256, some 89, some 20, none] := by decide +kernel
+-- index files and their `blob_size` fields, both models (blob 2 got one from `close`, the stale one of blob 0 was
+-- replaced by `init`; the empty blob 3 has none)
+example :
+    ((Acct.run C07Dir.cfg true (FsAcct.toAOps true 100 4 true true (ops ++ more))).dir.idx.map fun p => (p.1, p.2.blobSize)) =
+        [(1, 256), (2, 89), (0, 5306)] ∧
+      ((List.range 5).map fun i => (run true 100 4 true true (ops ++ more)).1.disk.idx i) =
+        [some 5306, some 256, some 89, none, none] := by decide +kernel
+-- while the storage is closed the directory model lags by `closeSession`: after `… close` the index file of the active
+-- blob 2 exists on the `Fs` disk, in `Acct` only after `closeSession`
+example :
+    (run true 100 4 true true (ops ++ more.take 3)).1.isOpen = false ∧
+      (run true 100 4 true true (ops ++ more.take 3)).1.disk.idx 2 = some 89 ∧
+      Acct.get (Acct.run C07Dir.cfg true (FsAcct.toAOps true 100 4 true true (ops ++ more.take 3))).dir.idx 2 = none ∧
+      (Acct.get (Acct.closeSession C07Dir.cfg
+        (Acct.run C07Dir.cfg true (FsAcct.toAOps true 100 4 true true (ops ++ more.take 3)))).dir.idx 2).map (·.blobSize) =
+          some 89 := by decide +kernel
+-- ids
+example : createdIds (run true 100 4 true true (ops ++ more)).2 = [0, 1, 2, 3] ∧
+    (Acct.runG C07Dir.cfg true (FsAcct.toAOps true 100 4 true true (ops ++ more))).created = [0, 1, 2, 3] := by decide +kernel
+example := trace_is_complete true 100 4 true true (ops ++ more)
+example := fs_acct_same_files C07Dir.cfg true 100 4 true true rfl (ops ++ more)
+example := trace_and_directory_agree C07Dir.cfg true 100 4 true true rfl ops more
+-- `trace_and_directory_agree` speaks about a proper growth: blob file 1 is 168 bytes long at the earlier time
+example : Acct.get (Acct.run C07Dir.cfg true (FsAcct.toAOps true 100 4 true true ops)).dir.blobs 1 = some 168 := by
+  decide +kernel
+
+end
+
 /-
 NOT YET PROVED (C07):
-* trace level (`Fs.run`) and directory level (`Acct.run`) are two models of the same code, each tied to the
-  implementation by its own correspondence check (file events / `fcounts`); there is no theorem relating a `Fs` trace to
-  the `Acct` directory it produces.  In particular `Acct` keeps lengths, not bytes: "moved to `corrupted` intact" is
-  `rename` by construction of the model (the ghost map `quar` records the length at the time of the move, and
-  `dir_quarantined_files_untouched` / `dir_quarantine_never_replaces` say that nothing replaces or removes the file
-  afterwards); the byte-level statement for held blobs is `dir_blob_files_only_grow` (`content` prefix).
+* trace level (`Fs.run`) and directory level (`Acct.run`) are linked on DAMAGE-FREE histories only (`trace_is_complete`,
+  `fs_acct_same_files`, `trace_and_directory_agree`): `Fs` has no operation for damage, quarantine or
+  `ignore_corrupted`, so the restarts in the image of `FsAcct.toAOps` are `restart lazy false []`; the rename into
+  `corrupted`, the removal of an index file by `remove_index_by_blob_path` and the ids reserved for quarantined files
+  have no trace-level counterpart.  The link compares blob-file lengths and the `blob_size` field of index files; `Fs`
+  traces index files without lengths, so `Acct.IdxFile.len` (hence `disk_used`) is not compared.  While the storage is
+  closed the comparison is with `Acct.closeSession` of the directory-level state (there is no `Acct.AOp` for `close`).
+  The rotation flag `rot` of a write is an input of both models (an observation of the implementation), not derived.
+  `FsAcct.tr` is a function from trace-level to directory-level histories, not a bijection: a directory-level write whose
+  `dmp` flag is not `!deferred` (a rotation while the previous dump task is still running — `Fs` is a model at
+  quiescence) and restarts with `ignore_corrupted` set are not in its image.
+  `Acct` keeps lengths, not bytes: "moved to `corrupted` intact" is `rename` by construction of the model (the ghost
+  map `quar` records the length at the time of the move, and `dir_quarantined_files_untouched` /
+  `dir_quarantine_never_replaces` say that nothing replaces or removes the file afterwards); the byte-level statement
+  for held blobs is `dir_blob_files_only_grow` (`content` prefix).
 * `Acct.stepC` / the ghost log are instrumentation written next to the model (`stepC_st`: same state;
   `dir_created_are_the_new_files`: the logged creations are exactly the new names in the work directory); they are not
   themselves part of the lock-step correspondence.
